@@ -31,6 +31,7 @@ import (
 	"github.com/cbeuw/Cloak/internal/common"
 	kit "github.com/cbeuw/Cloak/internal/verifkit"
 	log "github.com/sirupsen/logrus"
+	bolt "go.etcd.io/bbolt"
 )
 
 // field order of spec/UserDBGen.tla FieldSeq
@@ -103,6 +104,7 @@ type c18Env struct {
 	conc   c18Conc
 	table  []string
 	status map[string]int
+	uses   int
 }
 
 func (e *c18Env) open() error {
@@ -110,9 +112,56 @@ func (e *c18Env) open() error {
 	if err != nil {
 		return err
 	}
+	// every Update still writes its pages to the file before it returns; only the fdatasync is skipped
+	// (the file lives on a tmpfs, and the property is about Close/reopen, not about power loss)
+	m.db.NoSync = true
 	e.mgr = m
 	e.router = APIRouterOf(m)
 	return nil
+}
+
+func c18NewEnv(tmp string) *c18Env {
+	dir, err := os.MkdirTemp(tmp, "c18db")
+	if err != nil {
+		panic(err)
+	}
+	e := &c18Env{dir: dir, status: map[string]int{}}
+	if err := e.open(); err != nil {
+		panic(err)
+	}
+	return e
+}
+
+func (e *c18Env) destroy() {
+	if e.mgr != nil {
+		c18Safe(func() { e.mgr.Close() })
+	}
+	os.RemoveAll(e.dir)
+}
+
+// recycle empties the database behind the manager's back so that the next behaviour starts from an empty
+// store without paying for a new file and a new mmap (the bolt file keeps its free pages: more varied
+// layouts than a fresh file; every 64th behaviour gets a new file anyway).
+func (e *c18Env) recycle() bool {
+	e.uses++
+	if e.mgr == nil || e.uses%64 == 0 {
+		return false
+	}
+	err := e.mgr.db.Update(func(tx *bolt.Tx) error {
+		var names [][]byte
+		_ = tx.ForEach(func(name []byte, _ *bolt.Bucket) error {
+			names = append(names, append([]byte{}, name...))
+			return nil
+		})
+		for _, n := range names {
+			if err := tx.DeleteBucket(n); err != nil {
+				return err
+			}
+		}
+		return nil
+	})
+	e.table = nil
+	return err == nil
 }
 
 func (e *c18Env) logf(format string, a ...any) { e.table = append(e.table, fmt.Sprintf(format, a...)) }
@@ -500,28 +549,19 @@ func c18Terminations(resps []StatusResponse, uid []byte) []string {
 	return out
 }
 
-// c18Run steps one behaviour through a fresh database. Returns the violation key ("" if none).
-func c18Run(b *c18Behaviour, conc c18Conc, res *kit.Result, tmp string) (key, what string, table []string) {
-	dir, err := os.MkdirTemp(tmp, "c18db")
-	if err != nil {
-		panic(err)
-	}
-	defer os.RemoveAll(dir)
-	e := &c18Env{dir: dir, conc: conc, status: map[string]int{}}
-	if err := e.open(); err != nil {
-		panic(err)
-	}
+// c18Run steps one behaviour through an empty database. Returns the violation key ("" if none).
+func c18Run(b *c18Behaviour, conc c18Conc, res *kit.Result, e *c18Env) (key, what string, table []string) {
+	e.conc = conc
+	e.table = nil
 	defer func() {
-		if e.mgr != nil {
-			e.mgr.Close()
-		}
 		for k, v := range e.status {
 			res.Stat(k, int64(v))
 		}
+		e.status = map[string]int{}
 		table = e.table
 	}()
 	prev := map[string][]c18Cell{"u1": {}, "u2": {}}
-	if key, what = e.check(prev, "readback:fresh", "fresh database"); key != "" {
+	if key, what = e.check(prev, "readback:fresh", "empty database"); key != "" {
 		return
 	}
 	for si := range b.Steps {
@@ -558,13 +598,17 @@ func c18Run(b *c18Behaviour, conc c18Conc, res *kit.Result, tmp string) (key, wh
 				}
 			}
 		case "malformed":
-			for _, m := range e.malformed() {
+			ms := e.malformed()
+			for mi, m := range ms {
 				code, resp, pan := e.do(m.method, m.path, m.body)
 				e.logf("step %d malformed/%s %s %s body %q -> %d %q", si, m.kind, m.method, m.path, strings.TrimPrefix(m.body, "\x00"), code, strings.TrimSpace(string(resp)))
 				if pan != "" {
 					return "panic:handler:" + m.kind, fmt.Sprintf("step %d: %s %s panicked: %s", si, m.method, m.path, pan), nil
 				}
 				e.status[fmt.Sprintf("status:malformed-%s:%d", m.kind, code)]++
+				if mi+1 < len(ms) && ms[mi+1].kind == m.kind {
+					continue // the store is read back after the last request of each kind (per user)
+				}
 				if key, what = e.check(st.S, "rejected-changed-state:"+m.kind, fmt.Sprintf("step %d after malformed/%s", si, m.kind)); key != "" {
 					return
 				}
@@ -625,13 +669,14 @@ func c18Run(b *c18Behaviour, conc c18Conc, res *kit.Result, tmp string) (key, wh
 		prev = st.S
 	}
 	// integer extremes in a usage report: only "does not panic" is demanded of this last call
+	var extreme []StatusUpdate
 	for _, u := range []string{"u1", "u2"} {
 		for _, amt := range []int64{math.MaxInt64, math.MinInt64, -1} {
-			up := StatusUpdate{UID: e.conc.uid(u), UpUsage: amt, DownUsage: amt}
-			if p := c18Safe(func() { _, _ = e.mgr.UploadStatus([]StatusUpdate{up}) }); p != "" {
-				return "panic:UploadStatus", fmt.Sprintf("final UploadStatus(%s, %d) panicked: %s", u, amt, p), nil
-			}
+			extreme = append(extreme, StatusUpdate{UID: e.conc.uid(u), UpUsage: amt, DownUsage: amt})
 		}
+	}
+	if p := c18Safe(func() { _, _ = e.mgr.UploadStatus(extreme) }); p != "" {
+		return "panic:UploadStatus", "final UploadStatus with extreme usage panicked: " + p, nil
 	}
 	for _, u := range []string{"u1", "u2"} {
 		if p := c18Safe(func() { _, _ = e.mgr.GetUserInfo(e.conc.uid(u)); _, _, _ = e.mgr.AuthenticateUser(e.conc.uid(u)) }); p != "" {
@@ -696,6 +741,12 @@ func TestVerifC18Replay(t *testing.T) {
 		wg.Add(1)
 		go func() {
 			defer wg.Done()
+			var env *c18Env
+			defer func() {
+				if env != nil {
+					env.destroy()
+				}
+			}()
 			for j := range jobs {
 				if res.NumViolations() > 40 {
 					continue // enough evidence
@@ -711,11 +762,25 @@ func TestVerifC18Replay(t *testing.T) {
 					concs = append(concs, c18Conc{Swap: !concs[0].Swap, Decor: (concs[0].Decor + 1) % 3})
 				}
 				for _, c := range concs {
-					key, what, table := c18Run(&b, c, res, tmp)
+					if env == nil || !env.recycle() {
+						if env != nil {
+							env.destroy()
+						}
+						env = c18NewEnv(tmp)
+					}
+					reused := env.uses > 0
+					key, what, table := c18Run(&b, c, res, env)
 					res.Count(c18Sig(&b), c18Nontrivial(&b))
 					res.Stat("steps", int64(len(b.Steps)))
 					if key != "" {
-						res.Violate(key, what, map[string]any{"behaviour": b, "concretisation": c, "table": table})
+						// a failing run never hands its database on; say whether a brand-new file fails too
+						env.destroy()
+						env = c18NewEnv(tmp)
+						key2, _, _ := c18Run(&b, c, res, env)
+						env.destroy()
+						env = nil
+						res.Violate(key, what, map[string]any{"behaviour": b, "concretisation": c, "table": table,
+							"database_reused": reused, "key_on_new_file": key2})
 					}
 				}
 				if j.idx%9973 == 1 {
@@ -752,7 +817,9 @@ func c18ReplayFile(t *testing.T, path string, res *kit.Result, tmp string) {
 	if err := json.Unmarshal(raw, &rf); err != nil {
 		t.Fatal(err)
 	}
-	key, what, table := c18Run(&rf.Replay.Behaviour, rf.Replay.Concretisation, res, tmp)
+	env := c18NewEnv(tmp)
+	defer env.destroy()
+	key, what, table := c18Run(&rf.Replay.Behaviour, rf.Replay.Concretisation, res, env)
 	for _, l := range table {
 		fmt.Println(l)
 	}
